@@ -155,6 +155,26 @@ P = {
             "mechanism flags raised on the mismatching rows only.",
             "trusted: vpmon/ref/odata_eval.py, SQLite 3.40.1 as execution oracle",
             "DESIGN.md 2/C01"),
+    "C02": ("reference-model monitor: the real Django shorthand executes on in-memory SQLite "
+            "(harness model) over adversarial rows; returned ids vs three-valued reference "
+            "evaluator",
+            "Exploration by runtime monitoring: typed filters of the Django-supported scalar "
+            "fragment (both comparison orientations, field-to-field, in-lists, null tests in "
+            "both orientations, and/or/not, boolean functions bare/negated/compared, every "
+            "mapped string/date/math function) run through apply_odata_query on a real "
+            "QuerySet; ids must equal the rows the reference evaluator marks TRUE (UNSPEC rows "
+            "excluded). The Django backend is not collected by the pinned test command at all.",
+            "trusted: vpmon/ref/odata_eval.py; Django 6.1 + SQLite as execution oracle",
+            "DESIGN.md 2/C02"),
+    "C03": ("reference-model monitor over three SQLAlchemy entry styles + pairwise agreement "
+            "+ keyword-case metamorphic pairs, executed on in-memory SQLite",
+            "Exploration by runtime monitoring: typed filters of the SQLAlchemy-supported "
+            "fragment through apply_odata_query(select(Model.id)), apply_odata_query("
+            "session.query(Model)) and apply_odata_core(select(table.c.id)); each style's ids "
+            "must equal the reference evaluator's TRUE rows (hence each other), and a randomly "
+            "re-cased spelling of the same filter must select the same ids in every style.",
+            "trusted: vpmon/ref/odata_eval.py; strpos/concat/floor/ceil UDFs of the harness",
+            "DESIGN.md 2/C03"),
 }
 
 NOT_BUILT_REASON = "check not built yet in this round (design in DESIGN.md section 2); not claimed"
